@@ -208,6 +208,7 @@ def run(args):
     solve_time = time.time() - ts
 
     by_clause = {}
+    unreachable_exits = []
     mustfail = {}
     counts = {'obligations': 0, 'discharged': 0, 'covers': 0, 'covers_sat': 0,
               'mustfail': 0, 'mustfail_refuted': 0}
@@ -218,6 +219,11 @@ def run(args):
     for vc, r in zip(all_vcs, results):
         tsum += r['time']
         tmax = max(tmax, r['time'])
+        if vc.expect == 'sat-info':
+            counts['exit_paths'] = counts.get('exit_paths', 0) + 1
+            if r['result'] == 'unsat':
+                unreachable_exits.append(vc.name)
+            continue
         if vc.expect == 'sat':
             counts['covers'] += 1
             if r['result'] == 'sat':
@@ -461,6 +467,8 @@ def finish(pid, tier, seed, code, t0, L):
         'by_backend': L.get('by_backend', {}),
         'functions_under_contract': L.get('fuc', []),
         'paths': sum(f.get('paths', 0) for f in L.get('fuc', [])),
+        'exit_paths_probed': counts.get('exit_paths', 0),
+        'exit_paths_unreachable': sorted(L.get('unreachable_exits', []))[:60],
         'cover_queries': counts.get('covers', 0),
         'cover_reachable': counts.get('covers_sat', 0),
         'must_fail_checked': counts.get('mustfail', 0),
